@@ -629,6 +629,24 @@ func (f *Factory) MakeOn(parentHash, prevState []byte, height, blockTime int64, 
 	return types.Clone(out).(*types.Block), nil
 }
 
+// SignBlock puts the producer's signature (factory key over the block hash) into the block.
+// The signature is not part of the block hash; a nil signature is accepted by VerifySignature.
+func (f *Factory) SignBlock(b *types.Block) {
+	b.Signature = &types.Signature{Ty: types.SECP256K1, Pubkey: f.Priv.PubKey().Bytes(), Signature: f.Priv.Sign(b.Hash(f.N.Cfg)).Bytes()}
+}
+
+// Pool submits a transaction to the node's mempool (as a wallet / peer would); the error is returned.
+func (n *Node) Pool(tx *types.Transaction) error {
+	r, err := n.Mock.GetAPI().SendTx(types.Clone(tx).(*types.Transaction))
+	if err != nil {
+		return err
+	}
+	if !r.GetIsOk() {
+		return errors.New(string(r.GetMsg()))
+	}
+	return nil
+}
+
 // ChainOf builds n blocks in a row on parent, one coins transfer each; directly on genesis the
 // first block carries the funding of the factory's key instead.
 func (f *Factory) ChainOf(parent *types.Block, n int, bits uint32) ([]*types.Block, error) {
